@@ -21,7 +21,10 @@ RULE = ("formula strings of the grammar E/T/F (random nesting <=3, random whites
         "consumption/production; 30% written with builder OBJECTS reused: in two expressions, twice in one, after a "
         "discarded operation), push_* call sequences on a bare FormulaBuilder (all ten operators, constants, clippers, "
         "per-metric flags), malformed strings / token streams (only model=code); 3-5 rounds per engine with values from "
-        "{0,±1,±2,3,±4,8,±1/2,1/4,...} so that sub-expressions and divisors hit 0, some inputs missing; thorough adds every "
+        "{0,±1,±2,3,±4,8,±1/2,1/4,...} (4%: tiny non-zero magnitudes 2^-40, 1±2^-40) so that sub-expressions and divisors hit 0 "
+        "or come close to it, some inputs missing; a staggered-start family (>=3 streams, >=2 of them holding a backlog of the "
+        "same older timestamps when the engine starts, values encoding (stream, timestamp): every emitted value must be the "
+        "expression over the inputs stamped with the emitted timestamp); clip trees (push_clipper); thorough adds every "
         "operator sequence x every parenthesisation with <=4 operators over 3 ids.  non-trivial = >=2 operators of >=2 "
         "kinds; distinct by canonical JSON hash of the case incl. its rounds")
 
@@ -87,6 +90,10 @@ def run(ctx: Ctx) -> None:
     cases = corpus("C05")
     n = ctx.budget(quick=6000, thorough=60000)
     cases += gen_cases(ctx, n, p_missing=0.06, per_id_flags=0.2)
+    # staggered start (streams with backlogs of older samples), tiny non-zero divisors, clip steps
+    cases += g.backlog_cases(ctx, max(60, n // 40))
+    cases += g.tiny_cases()
+    cases += g.gen_clip_cases(ctx, max(60, n // 40), p_missing=0.06)
     # bounded-exhaustive small scope: all of it in the thorough tier, a slice of it in the quick tier
     cases += exhaustive(ctx, 1 if ctx.tier == "thorough" else 8)
     g.check_cases(ctx, "C05", cases)
